@@ -1,88 +1,110 @@
-import AioslskVerif.Proofs.Dist
+import AioslskVerif.Proofs.DistSusp
 /-!
 # C13 — distributed tree: one parent, bounded live children, truthful advertised place
 
-Property theorems only (model: `Model/Dist.lean`, the derived position `Derived` / `Degenerate`:
-`Spec/DistTree.lean`, invariant and helper lemmas: `Proofs/Dist.lean`).
-Every theorem quantifies over **all** op lists (`run ops`), any number of peers / connections, any values.
-The model is the code with the three proposed fixes `fixes/C13-*.patch` applied.
+Property theorems only. Model: `Model/Dist.lean` (the handlers of `DistributedNetwork`, atomic) under the small-step
+layer `Model/DistSusp.lean` (sends to the server that do not return at once, child sockets that block or are dead);
+the derived position `Derived` / `Degenerate`: `Spec/DistTree.lean`; the admission limits as the property reads them:
+`Spec/DistLimits.lean`; invariants and helper lemmas: `Proofs/Dist.lean`, `Proofs/DistSusp.lean`.
+
+Every theorem quantifies over **all** op lists of the small-step layer (`xrun ops`, `ops : List XOp`): any number of
+peers / connections, any values, the server socket blocked and released at any moment (`srvBlock` / `srvRelease`)
+with any events handled meanwhile, any child socket dead (`arm`) or blocked. `C13_atomic_model_refined` shows that the
+atomic histories (`run`, also the tree model of C14) are the special case without such ops.
 
 Reading (DESIGN.md, C13). `derived` = (parent.level + 1, parent.root, search off) when there is a parent,
 (0, own name, search on) otherwise. Truthfulness is demanded while a session exists (the own name is the
-session's user) and not for the degenerate announcement "parent's root = own name".
-"Parent not among the children" is read on users: no child has the parent's user name (hence also not
-the parent's connection).
+session's user) and not for the degenerate announcement "parent's root = own name". The server has been told the
+derived position **at all times**; the children have been told it whenever no handler is suspended on its way to
+them (`pend = []`: the code tells the server first and awaits that send), in particular after every release.
+"Parent not among the children" is read on users: no child has the parent's user name (hence also not the parent's
+connection). A child admission is judged against the limits that follow from the statistics **handled** last
+(`Spec/DistLimits.lean`): a new limit binds in the step that handles the statistics.
 -/
 namespace AioslskVerif.C13
 open AioslskVerif.Dist
 
 /-- **At most one parent**: `parent` is a single optional reference, the peer it refers to is registered
 exactly once (no duplicate `DistributedPeer` records), and it has announced both level and root. -/
-theorem C13_one_parent (ops : List Op) :
-    (∀ c c', (run ops).parent = some c → (run ops).parent = some c' → c = c') ∧
-    (run ops).live.Nodup ∧
-    (∀ c, (run ops).parent = some c → ((run ops).level c).isSome ∧ ((run ops).root c).isSome) := by
-  refine ⟨?_, (run_inv ops).str.liveNodup, (run_inv ops).str.parentComplete⟩
+theorem C13_one_parent (ops : List XOp) :
+    (∀ c c', (xrun ops).d.parent = some c → (xrun ops).d.parent = some c' → c = c') ∧
+    (xrun ops).d.live.Nodup ∧
+    (∀ c, (xrun ops).d.parent = some c → ((xrun ops).d.level c).isSome ∧ ((xrun ops).d.root c).isSome) := by
+  refine ⟨?_, (xrun_xinv ops).binv.str.liveNodup, (xrun_xinv ops).binv.str.parentComplete⟩
   intro c c' h h'
   rw [h] at h'
   exact Option.some.inj h'
 
 /-- **The parent is not among the children** — neither its connection nor any connection of the same user. -/
-theorem C13_parent_not_child (ops : List Op) (c : ConnId) (h : (run ops).parent = some c) :
-    c ∉ (run ops).children ∧ ∀ d ∈ (run ops).children, (run ops).name d ≠ (run ops).name c := by
-  have hp := (run_inv ops).str.pnc c h
+theorem C13_parent_not_child (ops : List XOp) (c : ConnId) (h : (xrun ops).d.parent = some c) :
+    c ∉ (xrun ops).d.children ∧ ∀ d ∈ (xrun ops).d.children, (xrun ops).d.name d ≠ (xrun ops).d.name c := by
+  have hp := (xrun_xinv ops).binv.str.pnc c h
   exact ⟨fun hm => hp c hm rfl, hp⟩
 
-/-- **Parent and children are live distributed connections** (registered in `distributed_peers`, not closed),
-and no connection is listed twice as a child. -/
-theorem C13_live (ops : List Op) :
-    (∀ c, (run ops).parent = some c → c ∈ (run ops).liveConns) ∧
-    (∀ d ∈ (run ops).children, d ∈ (run ops).liveConns) ∧ (run ops).children.Nodup :=
-  ⟨(run_inv ops).str.parentLive, (run_inv ops).str.childLive, (run_inv ops).str.childNodup⟩
+/-- **Parent and children are live distributed connections**: registered in `distributed_peers` and their `CLOSED`
+event has not been seen (also not by a handler that is still suspended); no connection is listed twice as a child. -/
+theorem C13_live (ops : List XOp) :
+    (∀ c, (xrun ops).d.parent = some c → (xrun ops).alive c) ∧
+    (∀ d ∈ (xrun ops).d.children, (xrun ops).alive d) ∧ (xrun ops).d.children.Nodup := by
+  have hb := (xrun_xinv ops).binv
+  refine ⟨?_, ?_, hb.str.childNodup⟩
+  · intro c hc; exact ⟨hb.str.parentLive c hc, fun hm => hb.closingNP c hm hc⟩
+  · intro d hd; exact ⟨hb.str.childLive d hd, fun hm => hb.closingNC d hm hd⟩
 
-/-- "live" means what it says: once the `CLOSED` event of a connection has been handled the connection is
-not live any more (so by `C13_live` it is neither parent nor child). -/
-theorem C13_live_closed (ops : List Op) (c : ConnId) : c ∉ (run (ops ++ [.closed c])).liveConns := by
-  have hnd := (run_inv ops).str.liveNodup
-  simp only [run, List.foldl_append, List.foldl_cons, List.foldl_nil, step, DState.liveConns]
-  show c ∉ (closePeer (run ops) c).live
-  unfold closePeer
-  split
-  · intro hm
-    have hm' : c ∈ (run ops).live.erase c := by
-      by_cases hp : (run ops).parent = some c
-      · simp only [if_pos hp] at hm; simpa using hm
-      · simp only [if_neg hp] at hm; exact hm
-    exact (hnd.mem_erase_iff.1 hm').1 rfl
-  · assumption
+/-- "live" means what it says: once the `CLOSED` event of a connection has been handed over the connection is
+not live any more (so by `C13_live` it is neither parent nor child) — also while its handler is suspended. -/
+theorem C13_live_closed (ops : List XOp) (c : ConnId) : ¬ (xrun (ops ++ [.base (.closed c)])).alive c := by
+  have hs := (xrun_xinv ops).binv.str
+  simp only [xrun, List.foldl_append, List.foldl_cons, List.foldl_nil]
+  exact closed_not_alive (List.foldl xstep XState.init ops) c hs
 
 /-- **Child admission.** A connection joins the children only in the step that created it as an incoming
 (not requested) distributed connection, and only if in the state before that step child acceptance was on and
-the number of children was below the current maximum. -/
-theorem C13_child_admission (ops : List Op) (op : Op) (d : ConnId)
-    (h : d ∈ (run (ops ++ [op])).children) (hn : d ∉ (run ops).children) :
-    ∃ n, op = .initialized n false ∧ d = (run ops).nextConn ∧
-      (run ops).accept = true ∧ (run ops).children.length < (run ops).maxChildren := by
-  have h' : d ∈ (step (run ops) op).children := by simpa [run, List.foldl_append] using h
-  obtain ⟨n, h1, h2, h3, h4, _, _⟩ := step_children (run ops) op d (run_inv ops) h' hn
+the number of children was below the current maximum — whatever sends are suspended at that moment. -/
+theorem C13_child_admission (ops : List XOp) (op : XOp) (d : ConnId)
+    (h : d ∈ (xrun (ops ++ [op])).d.children) (hn : d ∉ (xrun ops).d.children) :
+    ∃ n, op = .base (.initialized n false) ∧ d = (xrun ops).d.nextConn ∧
+      (xrun ops).d.accept = true ∧ (xrun ops).d.children.length < (xrun ops).d.maxChildren := by
+  have h' : d ∈ (xstep (xrun ops) op).d.children := by simpa [xrun, List.foldl_append] using h
+  obtain ⟨n, h1, h2, h3, h4, _, _⟩ := xstep_children (xrun ops) op d (xrun_xinv ops) h' hn
   exact ⟨n, h1, h2, h3, h4⟩
+
+/-- **A new limit binds in the step that handles the statistics.** After every history — with the `AcceptChildren`
+send (or any other send to the server) suspended or not — `_accept_children` / `_max_children` are the limits that
+follow from the own-user statistics handled so far (`Spec/DistLimits.lean`); no other step, in particular no
+resumption of a suspended handler, assigns them. -/
+theorem C13_limits_bind_at_stats (ops : List XOp) :
+    (xrun ops).d.accept = (limits ops).accept ∧ (xrun ops).d.maxChildren = (limits ops).max := by
+  have h := lim_xrun ops
+  exact ⟨congrArg Lim.accept h, congrArg Lim.max h⟩
+
+/-- **Admission against the statistics handled last**: every admission happens while the limits machine says that
+acceptance is on and that the number of children is below the maximum. -/
+theorem C13_admission_by_last_stats (ops : List XOp) (op : XOp) (d : ConnId)
+    (h : d ∈ (xrun (ops ++ [op])).d.children) (hn : d ∉ (xrun ops).d.children) :
+    (limits ops).accept = true ∧ (xrun ops).d.children.length < (limits ops).max := by
+  obtain ⟨_, _, _, h3, h4⟩ := C13_child_admission ops op d h hn
+  obtain ⟨e1, e2⟩ := C13_limits_bind_at_stats ops
+  exact ⟨e1 ▸ h3, e2 ▸ h4⟩
 
 /-- **A proposed potential parent is not taken as child**: the user of a newly admitted child is not in the
 potential-parent cache, and is not the current parent's user. -/
-theorem C13_candidate_not_child (ops : List Op) (op : Op) (d : ConnId)
-    (h : d ∈ (run (ops ++ [op])).children) (hn : d ∉ (run ops).children) :
-    ∃ n, op = .initialized n false ∧ n ∉ (run ops).potential ∧ (run ops).parentName ≠ some n := by
-  have h' : d ∈ (step (run ops) op).children := by simpa [run, List.foldl_append] using h
-  obtain ⟨n, h1, _, _, _, h5, h6⟩ := step_children (run ops) op d (run_inv ops) h' hn
+theorem C13_candidate_not_child (ops : List XOp) (op : XOp) (d : ConnId)
+    (h : d ∈ (xrun (ops ++ [op])).d.children) (hn : d ∉ (xrun ops).d.children) :
+    ∃ n, op = .base (.initialized n false) ∧ n ∉ (xrun ops).d.potential ∧ (xrun ops).d.parentName ≠ some n := by
+  have h' : d ∈ (xstep (xrun ops) op).d.children := by simpa [xrun, List.foldl_append] using h
+  obtain ⟨n, h1, _, _, _, h5, h6⟩ := xstep_children (xrun ops) op d (xrun_xinv ops) h' hn
   exact ⟨n, h1, h5, h6⟩
 
 /-- the cache keeps the most recent proposals: after `PotentialParents ns` the last `cacheSize` names of
 `ns` are in the cache (all of `ns` when `ns.length ≤ cacheSize`). -/
-theorem C13_cache_keeps_latest (ops : List Op) (ns : List Name) (n : Name)
+theorem C13_cache_keeps_latest (ops : List XOp) (ns : List Name) (n : Name)
     (h : n ∈ ns.drop (ns.length - Generated.Dist.cacheSize)) :
-    n ∈ (run (ops ++ [.potentialParents ns])).potential := by
-  simp only [run, List.foldl_append, List.foldl_cons, List.foldl_nil, step, onPotentialParents, extendCache]
-  generalize (List.foldl step init ops).potential = l
+    n ∈ (xrun (ops ++ [.base (.potentialParents ns)])).d.potential := by
+  simp only [xrun, List.foldl_append, List.foldl_cons, List.foldl_nil]
+  show n ∈ extendCache (List.foldl xstep XState.init ops).d.potential ns
+  unfold extendCache
+  generalize (List.foldl xstep XState.init ops).d.potential = l
   have hk : (l ++ ns).length - Generated.Dist.cacheSize
       = l.length + (ns.length - Generated.Dist.cacheSize) ∨
       (l ++ ns).length - Generated.Dist.cacheSize ≤ l.length := by
@@ -94,47 +116,95 @@ theorem C13_cache_keeps_latest (ops : List Op) (ns : List Name) (n : Name)
   · rw [List.drop_append_of_le_length hk]
     exact List.mem_append_right _ (List.mem_of_mem_drop h)
 
-/-- **Truthful to the server.** While logged in, the last `BranchLevel / BranchRoot / ToggleParentSearch` sent
-on the current server connection are the position derived from the current parent — after every history,
-including re-announcements by the parent, loss of the parent and session loss / re-login. -/
-theorem C13_truthful_server (ops : List Op) (me : Name) (hs : (run ops).session = some me)
-    (hd : ¬ Degenerate (run ops) me) :
-    ∃ a search, (run ops).toldServer = some (a, search) ∧ Derived (run ops) me a search :=
-  ⟨_, _, (run_inv ops).told.toldS me hs, adv_derived _ me (run_inv ops) hd⟩
+/-- **Truthful to the server, at all times.** While logged in, the last `BranchLevel / BranchRoot /
+ToggleParentSearch` written on the current server connection are the position derived from the current parent — after
+every history, including re-announcements by the parent, loss of the parent, session loss / re-login, and also while
+handlers are suspended in their sends to the server (the frames are written before the handler waits). -/
+theorem C13_truthful_server (ops : List XOp) (me : Name) (hs : (xrun ops).d.session = some me)
+    (hd : ¬ Degenerate (xrun ops).d me) :
+    ∃ a search, (xrun ops).d.toldServer = some (a, search) ∧ Derived (xrun ops).d me a search :=
+  ⟨_, _, (xrun_xinv ops).toldS me hs, adv_derived_s _ me (xrun_xinv ops).binv.str hd⟩
 
-/-- **Truthful to every child.** While logged in, the last `DistributedBranchLevel` written to every current
-child is the derived level, and the last `DistributedBranchRoot` the derived root (for level 0 the root may
-never have been written to a newly added child, as the protocol allows). -/
-theorem C13_truthful_children (ops : List Op) (me : Name) (hs : (run ops).session = some me)
-    (hd : ¬ Degenerate (run ops) me) (d : ConnId) (hc : d ∈ (run ops).children) :
-    ∃ a search, Derived (run ops) me a search ∧
-      (run ops).toldL d = some a.level ∧
-      ((run ops).toldR d = some a.root ∨ ((run ops).toldR d = none ∧ a.level = 0)) :=
-  ⟨_, _, adv_derived _ me (run_inv ops) hd, (run_inv ops).told.toldC me hs d hc⟩
+/-- **Truthful to every child.** While logged in and with no handler suspended on its way to the children, the last
+`DistributedBranchLevel` written to every current child is the derived level, and the last `DistributedBranchRoot` the
+derived root (for level 0 the root may never have been written to a newly added child, as the protocol allows) —
+whichever child sockets were dead or blocked when the position changed. -/
+theorem C13_truthful_children (ops : List XOp) (me : Name) (hs : (xrun ops).d.session = some me)
+    (hd : ¬ Degenerate (xrun ops).d me) (hq : (xrun ops).pend = []) (d : ConnId)
+    (hc : d ∈ (xrun ops).d.children) :
+    ∃ a search, Derived (xrun ops).d me a search ∧
+      (xrun ops).d.toldL d = some a.level ∧
+      ((xrun ops).d.toldR d = some a.root ∨ ((xrun ops).d.toldR d = none ∧ a.level = 0)) :=
+  ⟨_, _, adv_derived_s _ me (xrun_xinv ops).binv.str hd,
+   (xinv_settled _ (xrun_xinv ops) hq).told.toldC me hs d hc⟩
+
+/-- **When the server socket drains no handler stays suspended** — so after every release (and whenever the socket
+is not blocked) `C13_truthful_children` applies. -/
+theorem C13_release_settles (ops : List XOp) :
+    (xrun (ops ++ [.srvRelease])).pend = [] ∧ ((xrun ops).srvBlocked = false → (xrun ops).pend = []) := by
+  refine ⟨?_, (xrun_xinv ops).binv.unblocked⟩
+  simp only [xrun, List.foldl_append, List.foldl_cons, List.foldl_nil]
+  exact (srvRelease_xinv _ (foldl_xstep_xinv ops _ xinit_xinv)).2
+
+/-- **Every child in the list at the time of the change is sent the new values, regardless of what happens to the
+others** (`send_messages_to_children`, one write task per child and message): a child whose socket is not dead is
+told, whichever other sockets are dead; a blocked child socket makes nobody wait. -/
+theorem C13_each_child_told (x : XState) (a : Adv) (c : ConnId) (hc : c ∈ x.d.children) (ha : c ∉ x.armed) :
+    (tell x a).d.toldL c = some a.level ∧ (tell x a).d.toldR c = some a.root ∧ c ∈ (tell x a).d.children ∧
+    (∀ e, xstep x (.childBlock e) = x ∧ xstep x (.childRelease e) = x) :=
+  ⟨(tell_told x a c hc ha).1, (tell_told x a c hc ha).2, mem_tell_children.2 ⟨hc, ha⟩, fun _ => ⟨rfl, rfl⟩⟩
+
+/-- **The atomic model is the special case**: a history without blocked / dead sockets runs exactly as in
+`Model/Dist.lean` (whose `run` is also the tree model of C14). -/
+theorem C13_atomic_model_refined (ops : List Op) : xrun (ops.map XOp.base) = { d := run ops } := xrun_base ops
 
 /-! Non-vacuity: a reachable state with a session, a parent (connection 1, user 1, re-announced level 5, root 7)
 and a child (connection 0, user 2); the hypotheses of the theorems above hold there, and the values told are
 the derived ones. -/
-def demo : List Op :=
-  [.sessionInit 0, .initialized 2 false, .potentialParents [1, 3], .initialized 1 true, .initialized 3 true,
-   .level 1 3, .root 1 7, .level 1 5]
+def demo : List XOp :=
+  [.base (.sessionInit 0), .base (.initialized 2 false), .base (.potentialParents [1, 3]),
+   .base (.initialized 1 true), .base (.initialized 3 true), .base (.level 1 3), .base (.root 1 7),
+   .base (.level 1 5)]
 
-example : (run demo).session = some 0 ∧ (run demo).parent = some 1 ∧ (run demo).children = [0] ∧
-    (run demo).live = [0, 1] := by decide
-example : ¬ Degenerate (run demo) 0 := by
+example : (xrun demo).d.session = some 0 ∧ (xrun demo).d.parent = some 1 ∧ (xrun demo).d.children = [0] ∧
+    (xrun demo).d.live = [0, 1] ∧ (xrun demo).pend = [] := by decide
+example : ¬ Degenerate (xrun demo).d 0 := by
   intro ⟨c, h1, h2⟩
   have : c = 1 := by
-    have : (run demo).parent = some 1 := by decide
+    have : (xrun demo).d.parent = some 1 := by decide
     rw [this] at h1; exact (Option.some.inj h1).symm
   subst this
   revert h2; decide
-example : (run demo).toldServer = some (⟨6, 7⟩, false) ∧ (run demo).toldL 0 = some 6 ∧
-    (run demo).toldR 0 = some 7 := by decide
+example : (xrun demo).d.toldServer = some (⟨6, 7⟩, false) ∧ (xrun demo).d.toldL 0 = some 6 ∧
+    (xrun demo).d.toldR 0 = some 7 := by decide
 -- a child is admitted in the last step of this history (the premise of `C13_child_admission`)
-example : 0 ∈ (run ([.sessionInit 0] ++ [.initialized 2 false])).children ∧ 0 ∉ (run [.sessionInit 0]).children := by
-  decide
+example : 0 ∈ (xrun ([.base (.sessionInit 0)] ++ [.base (.initialized 2 false)])).d.children ∧
+    0 ∉ (xrun [.base (.sessionInit 0)]).d.children := by decide
 -- the degenerate announcement is reachable (which is why it is named in the hypotheses)
-example : Degenerate (run [.sessionInit 0, .initialized 1 true, .level 0 2, .root 0 0]) 0 :=
+example : Degenerate
+    (xrun [.base (.sessionInit 0), .base (.initialized 1 true), .base (.level 0 2), .base (.root 0 0)]).d 0 :=
   ⟨0, by decide, by decide⟩
+
+/-! Suspended sends: two children (connections 0, 1), a candidate (connection 2) that has announced its root. The
+server socket blocks; the candidate's level makes it the parent — the server is told `(2, 5)` at once, the children are
+not yet (one handler pending); meanwhile user 4 connects (admitted, told the new position) and child 0's socket dies;
+on release the remaining children are told, child 0 is gone. -/
+def demoSusp : List XOp :=
+  [.base (.sessionInit 0), .base (.initialized 1 false), .base (.initialized 2 false),
+   .base (.potentialParents [3]), .base (.initialized 3 true), .base (.root 2 5), .srvBlock,
+   .base (.level 2 1), .base (.initialized 4 false), .arm 0]
+
+example : (xrun demoSusp).d.parent = some 2 ∧ (xrun demoSusp).d.toldServer = some (⟨2, 5⟩, false) ∧
+    (xrun demoSusp).pend = [.tellAdv] ∧ (xrun demoSusp).d.children = [0, 1, 3] ∧
+    (xrun demoSusp).d.toldL 1 = some 0 ∧ (xrun demoSusp).d.toldL 3 = some 2 := by decide
+example : (xrun (demoSusp ++ [.srvRelease])).d.children = [1, 3] ∧ (xrun (demoSusp ++ [.srvRelease])).pend = [] ∧
+    (xrun (demoSusp ++ [.srvRelease])).d.toldL 1 = some 2 ∧ (xrun (demoSusp ++ [.srvRelease])).d.toldR 1 = some 5 ∧
+    (xrun (demoSusp ++ [.srvRelease])).d.live = [1, 2, 3] := by decide
+-- limits bind at once: the statistics lower the maximum to 1 while the `AcceptChildren` send is suspended; the
+-- connection that arrives meanwhile is not admitted
+example : (xrun [.base (.sessionInit 0), .base (.userStats 0 10240), .base (.initialized 1 false), .srvBlock,
+    .base (.userStats 0 5120), .base (.initialized 2 false)]).d.children = [0] ∧
+    (limits [.base (.sessionInit 0), .base (.userStats 0 10240), .base (.initialized 1 false), .srvBlock,
+    .base (.userStats 0 5120)]).max = 1 := by decide
 
 end AioslskVerif.C13
